@@ -1309,7 +1309,17 @@ class CCodeGenerator:
                             esize = self.emit(ir.Const(esize, "esize", rhs.ty))
                             rhs = self.builder.emit_mul(rhs, esize, rhs.ty)
 
-                    value = self.builder.emit_binop(loaded, op, rhs, ir_typ)
+                    if rhs.ty is not ir_typ and not expr.a.typ.is_pointer:
+                        # The operation happens in the common type:
+                        loaded = self.builder.emit_cast(loaded, rhs.ty)
+                        value = self.builder.emit_binop(
+                            loaded, op, rhs, rhs.ty
+                        )
+                        value = self.builder.emit_cast(value, ir_typ)
+                    else:
+                        value = self.builder.emit_binop(
+                            loaded, op, rhs, ir_typ
+                        )
                 self._store_value(value, lhs)
         else:  # pragma: no cover
             raise NotImplementedError(str(expr.op))
